@@ -24,7 +24,14 @@ import (
 	"time"
 )
 
-const verifDir = "/verif"
+// verifDir is /verif unless VERIF_DIR points at a snapshot of it (background
+// sweeps started with `vp run` work in a worktree of /verif).
+var verifDir = func() string {
+	if d := os.Getenv("VERIF_DIR"); d != "" {
+		return d
+	}
+	return "/verif"
+}()
 
 var (
 	workDir    = filepath.Join(verifDir, ".work")
@@ -89,6 +96,9 @@ func buildChild(race bool) (string, error) {
 		args = append(args, bin, "-race")
 	} else {
 		args = append(args, bin)
+	}
+	if mf := os.Getenv("VERIF_MODFILE"); mf != "" {
+		args = append(args, "-modfile="+mf) // build against a snapshot of the repository (background sweeps only)
 	}
 	args = append(args, "./cmd/vchild")
 	cmd := exec.Command("go", args...)
